@@ -180,7 +180,7 @@ def case(item):
         argv = ['redo', 't'] if prior != 'absent' or jitter % 2 else ['redo-ifchange', 't']
         st_file = os.path.join(top, '.strace')
         if use_strace:
-            argv = ['strace', '-f', '-qq', '-o', st_file, '-e', 'trace=execve,rename,renameat,renameat2,unlink,unlinkat,openat,open,creat,truncate,ftruncate'] + argv
+            argv = ['strace', '-f', '-qq', '-o', st_file, '-e', 'trace=execve,clone,clone3,fork,vfork,rename,renameat,renameat2,unlink,unlinkat,openat,open,creat,truncate,ftruncate'] + argv
         r, _ = pj.run(argv, verif_log=False, timeout=60)
         obs['commands'] += 1
         stop.set()
@@ -245,17 +245,47 @@ def strace_check(path, tpath, beh):
     exe = {}
     out = []
     tname = os.path.basename(tpath)
-    for line in open(path, errors='replace'):
+    pending = {}
+    parent = {}
+    lines = open(path, errors='replace').read().split('\n')
+    for line in lines:      # pass 1: who forked whom (the parent's clone line may come after the child's first calls)
+        mf = re.match(r'(\d+)\s+(?:clone3?|v?fork)\(.*= (\d+)\s*$', line) or re.match(r'(\d+)\s+<\.\.\. (?:clone3?|v?fork) resumed>.*= (\d+)\s*$', line)
+        if mf:
+            parent[mf.group(2)] = mf.group(1)
+
+    def program(pid):
+        seen = 0
+        while pid not in exe and pid in parent and seen < 50:
+            pid = parent[pid]
+            seen += 1
+        return exe.get(pid, 'redo')        # the root of the tree is the redo command itself
+    for line in lines:
+        # under load strace splits a call into "<unfinished ...>" and "<... execve resumed>) = 0"
+        mr = re.match(r'(\d+)\s+<\.\.\. execve resumed>.*= (-?\d+)', line)
+        if mr:
+            if mr.group(2) == '0' and mr.group(1) in pending:
+                exe[mr.group(1)] = pending.pop(mr.group(1))
+            continue
+        # a forked child is the same program as its parent until it execs (a pipeline stage of the script opens its
+        # redirections before exec)
+        mf = re.match(r'(\d+)\s+(?:clone3?|v?fork)\(.*= (\d+)\s*$', line) or re.match(r'(\d+)\s+<\.\.\. (?:clone3?|v?fork) resumed>.*= (\d+)\s*$', line)
+        if mf:
+            exe.setdefault(mf.group(2), program(mf.group(1)))
+            continue
         m = re.match(r'(\d+)\s+(\w+)\((.*)', line)
         if not m:
             continue
         pid, sc, rest = m.group(1), m.group(2), m.group(3)
+        if sc in ('clone', 'clone3', 'fork', 'vfork'):
+            continue
         if sc == 'execve':
             mm = re.match(r'"([^"]*)"', rest)
             if mm and ' = 0' in rest:
                 exe[pid] = os.path.basename(mm.group(1))
+            elif mm and '<unfinished' in rest:
+                pending[pid] = os.path.basename(mm.group(1))
             continue
-        is_redo = exe.get(pid, 'redo').startswith('redo') or pid not in exe
+        is_redo = program(pid).startswith('redo')
         if not is_redo:
             continue
         if sc in ('openat', 'open', 'creat'):
